@@ -1,5 +1,6 @@
 import CfbVerif.Props.C01
 import CfbVerif.Props.C06
+import CfbVerif.Phys.Refused
 /-!
 # C10 — rejected operations have no effect
 
@@ -265,5 +266,50 @@ theorem C10_refusal_noop (s : State) (op : Op) (e : Err) (hop : ∀ p, op ≠ .r
     | none => rfl
     | some ch => simp only [hc] at h ⊢; exact C10_mkdirs_atomic s ch e h
   · exact C10_refusal_noop_single s op e (fun p => ⟨fun h' => hm ⟨p, h'⟩, hop p⟩) h
+
+end CfbVerif.Props.C10
+
+namespace CfbVerif.Props.C10
+open CfbVerif.Dir CfbVerif.Names CfbVerif.Phys
+
+/-! ### the bytes: a refused call leaves the file bit for bit as it was (`Phys/Refused.lean`) -/
+
+theorem hstep_base (s : SState) (op : Op) (hre : op ≠ .reopen) :
+    hstep s (.base op) = ({ s with base := (step s.base op).1 }, .base (step s.base op).2) := by
+  cases op <;> first | rfl | exact absurd rfl hre
+
+/-- **every API call that is refused with an error leaves the whole two-level model state — the
+directory, every stream's bytes, the allocation tables, the free lists, every sector — and hence
+the rendered file, byte for byte, as it was**: for every state, every operation of the path-level
+API (for `remove_storage_all` see `C10_refused_rmall_image_unchanged`) and every error.  The
+directory half is `C10_refusal_noop`; the allocation half is `pstep_refused`: from equal logical
+states before and after, `physOf` derives no slot preparation, no freed chain and no store
+operation. -/
+theorem C10_refused_image_unchanged (ps : PState) (op : Op) (e : Err) (hop : ∀ p, op ≠ .rmall p)
+    (hre : op ≠ .reopen) (h : (hstep ps.s (.base op)).2 = .base (.err e)) :
+    (pstep ps (.base op)).1 = ps ∧ (pstep ps (.base op)).1.image = ps.image := by
+  rw [hstep_base ps.s op hre] at h
+  have he : (step ps.s.base op).2 = .err e := by
+    simp only at h
+    injection h
+  have hs : (step ps.s.base op).1 = ps.s.base := C10_refusal_noop ps.s.base op e hop he
+  have hh : hstep ps.s (.base op) = (ps.s, .base (.err e)) := by
+    rw [hstep_base ps.s op hre, hs, he]
+  have := pstep_refused ps op e hre hh
+  rw [this]
+  exact ⟨rfl, rfl⟩
+
+/-- `remove_storage_all`: whenever its answer is an error and the logical state is as it was (its
+initial NotFound refusal: `C10_rmall_notFound`), so are the allocation state and the file -/
+theorem C10_refused_rmall_image_unchanged (ps : PState) (q : List Nat) (e : Err)
+    (h : hstep ps.s (.base (.rmall q)) = (ps.s, .base (.err e))) :
+    (pstep ps (.base (.rmall q))).1 = ps ∧ (pstep ps (.base (.rmall q))).1.image = ps.image := by
+  rw [pstep_refused ps (.rmall q) e (by intro hc; cases hc) h]
+  exact ⟨rfl, rfl⟩
+
+/-- non-vacuity: on a fresh file, creating a stream under a parent that does not exist is refused
+(`NotFound`), and so is removing the root — the hypotheses are met -/
+example : (hstep (PState.create false 4096).s (.base (.mkstream [47, 97, 47, 98]))).2 = .base (.err .notFound) := by
+  rfl
 
 end CfbVerif.Props.C10
